@@ -1,1 +1,2 @@
-(* Props/C05.v -- stub, to be filled *)
+(* C05 statements pinned here *)
+From A1 Require Import Uper.Reader.
